@@ -215,8 +215,14 @@ func VerifC13SubLine() {
 	d, dm := c13data("d", lineLen)
 	base := int32(lineLen)
 	c.PushLine(AlignedAddress(base), d)
-	addr := vp.I32("addr")
-	vp.Assume(addr >= 0 && addr < int32(3*lineLen))
+	var addr int32
+	if vp.N("symaddr") == 1 {
+		addr = vp.I32("addr")
+		vp.Assume(addr >= 0 && addr < int32(3*lineLen))
+	} else {
+		L, S := int32(lineLen), int32(sub)
+		addr = []int32{0, L - 1, L, L + 1, L + S - 1, L + S, L + S + 1, 2*L - 1, 2 * L, 3*L - 1}[vp.Choice("corner", 10)]
+	}
 	a, data, ok := c.GetSubCacheLine([]int32{addr}, int32(sub))
 	in := addr >= base && addr < base+int32(lineLen)
 	vp.Assert(ok == in, "subline:present-iff-covered")
